@@ -66,9 +66,28 @@ func AllStats() map[string]Stats {
 
 var (
 	SlowLogDir    = os.Getenv("GOSYM_SLOWLOG")
-	SlowThreshold = 15 * time.Second
+	SlowThreshold = slowThresholdFromEnv()
 	slowCtr       int64
+	slowMax       = int64(envInt("GOSYM_SLOWMAX", 40))
 )
+
+func envInt(k string, d int) int {
+	if v := os.Getenv(k); v != "" {
+		if n, err := strconv.Atoi(v); err == nil {
+			return n
+		}
+	}
+	return d
+}
+
+func slowThresholdFromEnv() time.Duration {
+	if v := os.Getenv("GOSYM_SLOWMS"); v != "" {
+		if n, err := strconv.Atoi(v); err == nil {
+			return time.Duration(n) * time.Millisecond
+		}
+	}
+	return 15 * time.Second
+}
 
 type Solver struct {
 	Backend   string // "z3", "z3-new", "cvc5"
@@ -201,7 +220,7 @@ func (s *Solver) Check(asserts []*Term, want []*Term) (Result, Model, error) {
 		atomic.AddInt64(&s.st.Nanos, int64(d))
 		if SlowLogDir != "" && d > SlowThreshold {
 			n := atomic.AddInt64(&slowCtr, 1)
-			if n <= 40 {
+			if n <= slowMax {
 				os.WriteFile(fmt.Sprintf("%s/slow_%03d_%dms.smt2", SlowLogDir, n, d.Milliseconds()), []byte(q), 0644)
 			}
 		}
